@@ -227,3 +227,118 @@ Proof. vm_compute. repeat split. Qed.
 Corollary red_run_no_panic defer_err n (evs : list revent) : 0 < n ->
   match r_run defer_err n r_init evs with Ok _ => True | _ => False end.
 Proof. intros H. apply red_run_ok. apply r_init_ok. exact H. Qed.
+
+(* ------------------------------------------- multi_stream request budget *)
+Lemma ms_delay_bound T start now delays k :
+  start <= now <= start + T ->
+  (forall now' dl', start <= now' <= start + T -> mres_time (k now' dl') <= start + T) ->
+  mres_time (ms_delay T start now delays k) <= start + T.
+Proof.
+  intros Hn Hk. unfold ms_delay. destruct (ms_budget_spent (now - start) T); [cbn; lia|].
+  destruct (N.leb_spec (now + hd 0 delays) (start + T)); [apply Hk; lia|cbn; lia].
+Qed.
+
+(* Theorem: whatever the connections do (fail to come up, come up slowly, die
+   with or without reading the request, stay silent) and whatever back-off
+   delays are drawn, the request ends no later than response_timeout after it
+   was created: the budget is per request, not per connection. *)
+Theorem ms_request_within_budget T (atts : list catt) : forall start now count delays,
+  start <= now <= start + T ->
+  mres_time (ms_request T start now count atts delays) <= start + T.
+Proof.
+  induction atts as [|a rest IH]; intros start now count delays Hn; cbn [ms_request].
+  - destruct (ms_budget_spent (now - start) T); cbn; lia.
+  - destruct (ms_budget_spent (now - start) T); [cbn; lia|].
+    destruct a as [d|d r].
+    + destruct (N.ltb_spec (now + d) (start + T)); [|cbn; lia].
+      apply ms_delay_bound; [lia|]. intros now' dl' H'. apply IH. exact H'.
+    + destruct (N.ltb_spec (now + d) (start + T)) as [Hd|]; [|cbn; lia].
+      cbv [ms_start_fixed]. destruct (ms_budget_spent (now + d - start) T); [cbn; lia|].
+      destruct r as [d'|d'|d'|d'|].
+      * destruct (N.ltb_spec (now + d + d') (start + T)); cbn; lia.
+      * destruct (N.ltb_spec (now + d + d') (start + T)); cbn; lia.
+      * destruct (N.ltb_spec (now + d + d') (start + T)); [|cbn; lia].
+        destruct (count + 1 =? ms_immediate_retry_at).
+        -- apply IH. lia.
+        -- apply ms_delay_bound; [lia|]. intros now' dl' H'. apply IH. exact H'.
+      * destruct (N.ltb_spec (now + d + d') (start + T)); [|cbn; lia].
+        apply ms_delay_bound; [lia|]. intros now' dl' H'. apply IH. exact H'.
+      * cbn; lia.
+Qed.
+
+Corollary ms_request_budget T atts delays : mres_time (c15_ms_request T atts delays) <= T.
+Proof. unfold c15_ms_request. pose proof (ms_request_within_budget T atts 0 0 0 delays) as H. lia. Qed.
+
+(* a timeout is reported exactly when the budget is used up, never earlier *)
+Lemma ms_delay_timeout_exact T start now delays k t :
+  start <= now <= start + T ->
+  (forall now' dl' t', start <= now' <= start + T -> k now' dl' = MErrTimeout t' -> t' = start + T) ->
+  ms_delay T start now delays k = MErrTimeout t -> t = start + T.
+Proof.
+  intros Hn Hk. unfold ms_delay. cbv [ms_budget_spent].
+  destruct (N.leb_spec T (now - start)); [intros E0; inversion E0; lia|].
+  destruct (N.leb_spec (now + hd 0 delays) (start + T)); [apply Hk; lia|intros E0; inversion E0; reflexivity].
+Qed.
+
+Theorem ms_timeout_exact T (atts : list catt) : forall start now count delays t,
+  start <= now <= start + T ->
+  ms_request T start now count atts delays = MErrTimeout t -> t = start + T.
+Proof.
+  induction atts as [|a rest IH]; intros start now count delays t Hn; cbn [ms_request]; cbv [ms_budget_spent ms_start_fixed].
+  - destruct (N.leb_spec T (now - start)); intros E0; inversion E0; lia.
+  - destruct (N.leb_spec T (now - start)); [intros E0; inversion E0; lia|].
+    destruct a as [d|d r].
+    + destruct (N.ltb_spec (now + d) (start + T)); [|intros E0; inversion E0; reflexivity].
+      apply ms_delay_timeout_exact; [lia|]. intros now' dl' t' H'. apply IH. exact H'.
+    + destruct (N.ltb_spec (now + d) (start + T)) as [Hd|]; [|intros E0; inversion E0; reflexivity].
+      destruct (N.leb_spec T (now + d - start)); [intros E0; inversion E0; lia|].
+      destruct r as [d'|d'|d'|d'|].
+      * destruct (N.ltb_spec (now + d + d') (start + T)); intros E0; inversion E0; reflexivity.
+      * destruct (N.ltb_spec (now + d + d') (start + T)); intros E0; inversion E0; reflexivity.
+      * destruct (N.ltb_spec (now + d + d') (start + T)); [|intros E0; inversion E0; reflexivity].
+        destruct (count + 1 =? ms_immediate_retry_at).
+        -- apply IH. lia.
+        -- apply ms_delay_timeout_exact; [lia|]. intros now' dl' t' H'. apply IH. exact H'.
+      * destruct (N.ltb_spec (now + d + d') (start + T)); [|intros E0; inversion E0; reflexivity].
+        apply ms_delay_timeout_exact; [lia|]. intros now' dl' t' H'. apply IH. exact H'.
+      * intros E0; inversion E0; reflexivity.
+Qed.
+
+Lemma ms_awaits_pinned : ms_all_awaits_bounded = true /\ ms_immediate_retry_at = 1.
+Proof. split; reflexivity. Qed.
+
+Example ex_ms_request :
+  (* slow accept (20 s) then silence, 30 s budget: fails at 30 s, not at 50 s *)
+  c15_ms_request 30000 [COk 20000 SSilent] [] = MErrTimeout 30000 /\
+  (* every connection is accepted and dies after the request was read *)
+  c15_ms_request 30000 [COk 0 (SFail 0); COk 0 (SFail 0); COk 0 (SFail 0)] [1500; 3000; 40000] = MErrTimeout 30000 /\
+  c15_ms_request 30000 [COk 10 (SClosed 5); COk 20 (SReply 7)] [] = MOk 42 /\
+  c15_ms_request 3000 [COk 100 (SReply 2900)] [] = MErrTimeout 3000 /\ c15_ms_request 3000 [COk 100 (SReply 2899)] [] = MOk 2999.
+Proof. vm_compute. repeat split. Qed.
+
+(* ------------------------------------------------- load_balancer *)
+(* the answer the load balancer makes up itself carries the request's ID and
+   question (property text); RCODE SERVFAIL *)
+Theorem lb_local_answers rid rqr qs has_opt :
+  m_id (lb_local rid rqr qs has_opt) = rid /\
+  m_qs (lb_local rid rqr qs has_opt) = Some qs /\
+  m_qd (lb_local rid rqr qs has_opt) = lenN qs /\
+  m_rcode (lb_local rid rqr qs has_opt) = 2.
+Proof. cbv [lb_local lb_local_id lb_local_copies_question lb_local_rcode m_id m_qs m_qd m_rcode]. auto. Qed.
+
+(* what it does with the QR bit: copied from the request, so a local answer to
+   a query has QR clear and the library's own is_answer rejects it *)
+Lemma lb_local_qr_as_in_code rid rqr qs has_opt :
+  m_qr (lb_local rid rqr qs has_opt) = lb_local_qr rqr.
+Proof. reflexivity. Qed.
+
+Lemma lb_usable_spec mb b : lb_usable (Some mb, b) = true <-> b <= mb.
+Proof.
+  unfold lb_usable. cbn [fst snd]. cbv [lb_over_burst]. destruct (N.ltb_spec mb b); cbn; split; intros; try lia; try reflexivity; discriminate.
+Qed.
+
+Example ex_lb :
+  lb_run [(Some 1, 0)] [0; 0; 0; 0]%nat = [Some O; Some O; None; None] /\
+  lb_run [] [0]%nat = [None] /\
+  lb_run [(Some 0, 0); (None, 0)] [0; 0; 0]%nat = [Some O; Some 1%nat; Some 1%nat].
+Proof. vm_compute. repeat split. Qed.
